@@ -178,12 +178,32 @@ def corr(ctx, drv):
         answers = []
         orig = m._find_best_vector_match
 
+        lists = []
+        orig_dm = m._do_match
+        rank_msgs = []
+
+        def dm_wrapped(*a_, **k_):
+            lst = orig_dm(*a_, **k_)
+            lists.append(lst)
+            return lst
+        m._do_match = dm_wrapped
+
         def wrapped(point_selection, zero, candidates):
             r = orig(point_selection=point_selection, zero=zero, candidates=candidates)
             answers.append("N" if r is None else sel_bits(r.selector))
+            # the ranking: the returned match maximises the closed form of the figure of merit (Model.fomClosed, theorem
+            # C12.fom_ranking_closed_form) over the candidates' matches
+            if lists and lists[-1]:
+                vals = [documented_fom(x.a, x.b, np.sum(x.peak_elevations)) for x in lists[-1]]
+                if r is None:
+                    rank_msgs.append("candidate matches exist but no best match was returned")
+                elif documented_fom(r.a, r.b, np.sum(r.peak_elevations)) < max(vals) * (1 - 1e-9):
+                    rank_msgs.append(f"the returned match has figure of merit {documented_fom(r.a, r.b, np.sum(r.peak_elevations)):.6g} "
+                                     f"(closed form), the best candidate match {max(vals):.6g}")
+                ctx.count("ranking_checked")
             return r
         m._find_best_vector_match = wrapped
-        msgs = []
+        msgs = rank_msgs
         with warnings.catch_warnings():
             warnings.simplefilter("ignore")
             try:
